@@ -909,20 +909,18 @@ func c08Findings(t *testing.T, st *VStream, stats *VStats, log *logrus.Logger) {
 // c08RaceStream: many goroutines hit one freshly expired entry at the same instant; exactly one of
 // them may be told to refresh (the CAS on `refreshing`).  One round = one `ins` + one `clook` line.
 func c08RaceStream(t *testing.T, st *VStream, stats *VStats, log *logrus.Logger, rounds int) {
-	synctest.Test(t, func(t *testing.T) {
-		w := &c08World{log: log, st: st, stats: stats}
-		w.cfg(c08Cfg{opt: true, stale: 60})
-		defer func() { _ = w.c.Close() }()
-		now := time.Now().UnixNano()
-		for i := 0; i < rounds; i++ {
-			name := fmt.Sprintf("r%d.test", i%50)
-			key := w.realKey(name, 1, c08Routes()[0])
-			now += c08Sec
-			w.ins(now, key, name, 1, 0, i%60000, 1, 0) // TTL 0: expired at once, inside the stale window
-			w.clook(now, key, name, 1, 24+i%24)
-			stats.Inc("race.rounds")
-		}
-	})
+	// Real time and real parallelism (no synctest bubble): the entries have TTL 0 and a 60 s stale
+	// window, so nothing here depends on how fast the wall clock runs.
+	w := &c08World{log: log, st: st, stats: stats}
+	w.cfg(c08Cfg{opt: true, stale: 60})
+	defer func() { _ = w.c.Close() }()
+	for i := 0; i < rounds; i++ {
+		name := fmt.Sprintf("r%d.test", i%50)
+		key := w.realKey(name, 1, c08Routes()[0])
+		w.ins(time.Now().UnixNano(), key, name, 1, 0, i%60000, 1, 0) // TTL 0: expired at once, inside the stale window
+		w.clook(time.Now().UnixNano(), key, name, 1, 8+i%9)
+		stats.Inc("race.rounds")
+	}
 }
 
 func c08HeapStream(r *VRand, st *VStream, stats *VStats, n int) {
@@ -991,9 +989,9 @@ func TestVerifC08(t *testing.T) {
 	// the real janitor goroutine must not fire on its own: the histories decide when it runs
 	dnsCacheJanitorInterval = 24 * 365 * 50 * time.Hour
 
-	nHist, nOps, nHeap, nKeys, nRace := VEnvInt("C08_HIST", 250), 60, 600, 400, VEnvInt("C08_RACE", 400)
+	nHist, nOps, nHeap, nKeys, nRace := VEnvInt("C08_HIST", 250), 60, 600, 400, VEnvInt("C08_RACE", 300)
 	if VThorough() {
-		nHist, nOps, nHeap, nKeys, nRace = VEnvInt("C08_HIST", 2500), 140, 6000, 4000, VEnvInt("C08_RACE", 6000)
+		nHist, nOps, nHeap, nKeys, nRace = VEnvInt("C08_HIST", 2500), 140, 6000, 4000, VEnvInt("C08_RACE", 4000)
 	}
 
 	synctest.Test(t, func(t *testing.T) {
